@@ -21,8 +21,11 @@
   builtins); `runEval true` is the code before 62901c4 and `runEvalChild` the code in between — both
   kept only for the two pre-fix witnesses of section 2. `runRehydrate` / `runCtxSet` / `runCtxDel` /
   `runClearAll` are the non-Python operations the harness interleaves with evaluations on one Context.
-  A function object made by an EARLIER evaluation / py step still carries that run's namespace object
-  as its globals, which the model does not keep: calling one is `outOfDomain` (`callee`).
+  `runEvalSet` (`pypyr.steps.set` with a `!py` value) and `runForeach` (`Step.foreach_loop` over a
+  `!py` value) are the two routes by which a function / generator object a `!py` expression made is
+  kept and run LATER. A function / generator object carries the namespace object of the run that made
+  it as its globals (`Closure.ns`, `GenObj.ns`, `St.nss`); whoever calls / pulls it, and whenever, its
+  body resolves against that object: section 7.
 -/
 import Props.Lemmas.C14_Frame
 import Props.Lemmas.C14_Hidden
@@ -37,11 +40,12 @@ def exSt : St :=
   { ctx := [("a", .tok .ctx "a"), ("len", .tok .ctx "len"), ("T", .ref 0), ("L", .ref 1)]
     imps := [("math", .tok .mod "math"), ("a", .tok .imp "a")]
     hidden := [("__builtins__", builtinsTok)]
-    scratch := []
-    ns := []
     bi := [("len", .tok .bi "len"), ("abs", .tok .bi "abs")]
     heap := [.tuple [.cst 1, .cst 2], .list [.cst 7]]
-    saved := [] }
+    saved := []
+    nss := []
+    cur := 0
+    next := 0 }
 
 /-- `((x := a), [(y := i) for i in T if a for j in T], (lambda p: (q := p))(a), L.append(len))` -/
 def exExpr : Expr :=
@@ -73,20 +77,25 @@ def exBlock : List Stmt :=
 /-! ### 1. `!py` cannot touch the context — nor anything else but the heap (`get_eval_string` NOW) -/
 
 /-- `eval_frame`: for the arrangement of `get_eval_string` as it is now
-    (`n = _EvalNamespace(ctx, imps); eval(src, n, n)`), for EVERY expression, fuel and state — whether
-    the evaluation returns or raises — the WHOLE state afterwards is the state before except for the
-    heap: the context (same key list in the same order, same bindings), the pyimport mapping, the raw
-    dict slot of the per-Context namespace object (`hidden`: nothing an expression binds outlives
-    the evaluation — this is what 81f45d6 + 2f08756 repaired), the builtins, the save log; the
-    throw-away namespace is gone. Only heap cells (in-place mutations, new objects) can differ. -/
+    (`n = _EvalNamespace(ctx, imps); eval(src, n, n)`), for EVERY expression (calls of function
+    objects and pulls of generator objects made by EARLIER evaluations / py steps, and calls of the
+    namespace object's own methods, included), fuel and state — whether the evaluation returns or
+    raises — the WHOLE state afterwards is the state before except for the heap, the table of
+    namespace objects (a new one for this evaluation; own dicts of older ones that deferred code
+    wrote to) and the id counter: the context (same key list in the same order, same bindings), the
+    pyimport mapping, the raw dict slot of the per-Context namespace object (`hidden`: nothing an
+    expression binds lands there — this is what 81f45d6 + 2f08756 repaired), the builtins, the save
+    log, the current-namespace pointer. -/
 theorem eval_frame (fuel : Nat) (st : St) (e : Expr) :
     (runEval false fuel st e).2 =
-      { st with heap := (runEval false fuel st e).2.heap, scratch := [] } := by
+      { st with heap := (runEval false fuel st e).2.heap, nss := (runEval false fuel st e).2.nss,
+                next := (runEval false fuel st e).2.next } := by
   have h := evalExpr_evalFixed_rest fuel
-    { kind := .module, chain := [], explicit := e.compWalrus, base := st.heap.length } e
-    { st with scratch := ownInit }
+    { kind := .module, chain := [], explicit := e.compWalrus } e (st.enter .evalFixed ownInit)
   apply St.ext'
-  · simpa only [runEval, Bool.false_eq_true, if_false, St.evalRest] using h
+  · simpa only [runEval, Bool.false_eq_true, if_false, St.evalRest, St.retire, St.enter] using h
+  · rfl
+  · rfl
   · rfl
   · rfl
 
@@ -97,10 +106,9 @@ theorem eval_frame_fields (fuel : Nat) (st : St) (e : Expr) :
     (runEval false fuel st e).2.hidden = st.hidden ∧
     (runEval false fuel st e).2.bi = st.bi ∧
     (runEval false fuel st e).2.saved = st.saved ∧
-    (runEval false fuel st e).2.ns = st.ns ∧
-    (runEval false fuel st e).2.scratch = [] := by
+    (runEval false fuel st e).2.cur = st.cur := by
   have h := eval_frame fuel st e
-  refine ⟨?_, ?_, ?_, ?_, ?_, ?_, ?_⟩ <;> rw [h]
+  refine ⟨?_, ?_, ?_, ?_, ?_, ?_⟩ <;> rw [h]
 
 /-- The example expression runs to completion with three assignment expressions at three different
     nestings; none lands in the context or in the per-Context namespace object; the append is
@@ -110,20 +118,21 @@ example : (runEval false 30 exSt exExpr).2.hidden = [("__builtins__", builtinsTo
     seqItems (runEval false 30 exSt exExpr).2.heap (.ref 1) = some [.cst 7, .tok .ctx "len"] := by
   decide +kernel
 
-/-- `eval_frame_nested`: the same at every scope nesting (inside lambdas, comprehensions, calls of
-    closures found in the heap), not only for the top-level entry point: only the throw-away own
-    dict and the heap can differ. -/
-theorem eval_frame_nested (fuel : Nat) (sc : Scope) (st : St) (e : Expr) :
-    (evalExpr .evalFixed fuel sc e st).2.ctx = st.ctx ∧
-    (evalExpr .evalFixed fuel sc e st).2.imps = st.imps ∧
-    (evalExpr .evalFixed fuel sc e st).2.hidden = st.hidden := by
-  have h := evalExpr_evalFixed_rest fuel sc e st
+/-- `eval_frame_nested`: the same at every scope nesting (inside lambdas, comprehensions, bodies of
+    function / generator objects found in the heap — whichever of the two live arrangements their
+    namespace object has), not only for the top-level entry point: only own dicts of namespace
+    objects and the heap can differ. -/
+theorem eval_frame_nested {a : Arr} (ha : a.live) (fuel : Nat) (sc : Scope) (st : St) (e : Expr) :
+    (evalExpr a fuel sc e st).2.ctx = st.ctx ∧
+    (evalExpr a fuel sc e st).2.imps = st.imps ∧
+    (evalExpr a fuel sc e st).2.hidden = st.hidden := by
+  have h := evalExpr_live_rest ha fuel sc e st
   simp only [St.evalRest, Prod.mk.injEq] at h
   exact ⟨h.1, h.2.1, h.2.2.1⟩
 
 /-- inside a function scope both the module-level `x` and the comprehension's `y` go to the own dict
     of the throw-away namespace -/
-example : (evalExpr .evalFixed 30 { kind := .func, chain := [], explicit := [] } exExpr exSt).2.scratch =
+example : (evalExpr .evalFixed 30 { kind := .func, chain := [], explicit := [] } exExpr exSt).2.own =
     [("x", .tok .ctx "a"), ("y", .cst 2)] ∧
     (evalExpr .evalFixed 30 { kind := .func, chain := [], explicit := [] } exExpr exSt).2.hidden = exSt.hidden := by
   decide +kernel
@@ -166,7 +175,7 @@ theorem walrus_leak_pre_fix :
     the context for every state, name and constant (adding the key or REBINDING an existing one). -/
 theorem walrus_leak_pre_fix_all (fuel : Nat) (st : St) (x : String) (n : Nat) :
     (runEval true (fuel + 2) st (.walrus x (.const n))).2.ctx = st.ctx.set x (.cst n) := by
-  simp [runEval, evalExpr, store, chainStore, Expr.compWalrus, storeName]
+  simp [runEval, evalExpr, store, chainStore, Expr.compWalrus, storeName, St.enter, St.retire]
 
 example : (runEval true 2 exSt (.walrus "a" (.const 5))).2.ctx.get? "a" = some (.cst 5) := by
   decide +kernel
@@ -196,7 +205,7 @@ theorem comp_walrus_leftover_pre_fix :
     to `context.update` (the ghost log `saved` grew by it), such that the context afterwards is the
     context before `dict.update`d with `log`, and every logged key is one the block names literally
     in a `save(...)` (positional name or keyword). Nothing else is touched: pyimport mapping,
-    builtins, the `!py` namespace object; the exec namespace dict is dropped. So locals, imports,
+    builtins, the `!py` namespace object. So locals, imports,
     function and class definitions, `__builtins__` and `save` itself reach the context only when
     saved by name. -/
 theorem exec_frame (fuel : Nat) (st : St) (b : List Stmt) :
@@ -207,12 +216,11 @@ theorem exec_frame (fuel : Nat) (st : St) (b : List Stmt) :
       (runPyStep fuel st b).2.imps = st.imps ∧
       (runPyStep fuel st b).2.bi = st.bi ∧
       (runPyStep fuel st b).2.hidden = st.hidden ∧
-      (runPyStep fuel st b).2.scratch = st.scratch ∧
-      (runPyStep fuel st b).2.ns = [] := by
-  obtain ⟨log, h1, h2, h3, h4, h5, h6, h7⟩ := execBlock_exec_saved fuel
-    { kind := .module, chain := [], explicit := blockExplicit b, base := st.heap.length } b
-    { st with ns := pyStepNs st.ctx }
-  exact ⟨log, h1, h2, h3, h4, h7, h5, h6, rfl⟩
+      (runPyStep fuel st b).2.cur = st.cur := by
+  obtain ⟨log, h1, h2, h3, h4, h5, h7⟩ := execBlock_exec_saved fuel
+    { kind := .module, chain := [], explicit := blockExplicit b } b
+    (st.enter .exec (pyStepNs st.ctx))
+  exact ⟨log, h1, h2, h3, h4, h7, h5, rfl⟩
 
 /-- The example block binds `x`, `math`, `f`, `C`, `r`, `g` and deletes its copy of `a`; the context
     gets exactly the four saved keys (after the existing ones) and keeps `a`. -/
@@ -279,7 +287,7 @@ example : blockSaveKeys (exBlock.take 6 ++ [.del "a"]) = [] ∧
 theorem save_passes_namespace_bindings (fuel : Nat) (sc : Scope) (st st' : St) (names : List String)
     (h : execStmt .exec fuel sc (.save names []) st = (.ok (), st')) :
     ∃ d : Env, st' = doSave st d ∧
-      ∀ k v, d.get? k = some v → k ∈ names ∧ st.ns.get? k = some v := by
+      ∀ k v, d.get? k = some v → k ∈ names ∧ st.own.get? k = some v := by
   simp only [execStmt, evalKws] at h
   split at h
   · cases h
@@ -305,7 +313,7 @@ theorem save_passes_namespace_bindings (fuel : Nat) (sc : Scope) (st st' : St) (
           · exact h2
 
 example : (execStmt .exec 5 { kind := .module, chain := [], explicit := [] } (.save ["a", "T"] [])
-    { exSt with ns := pyStepNs exSt.ctx }).2.saved = [("a", .tok .ctx "a"), ("T", .ref 0)] := by
+    (exSt.enter .exec (pyStepNs exSt.ctx))).2.saved = [("a", .tok .ctx "a"), ("T", .ref 0)] := by
   decide +kernel
 
 /-! ### 4. pyimport names live beside the context, never in it -/
@@ -327,12 +335,12 @@ theorem imports_beside_context (fuel : Nat) (st : St) (bindings : Env) (x : Stri
   refine ⟨rfl, rfl, rfl, rfl, rfl, ?_⟩
   rw [runEval_name]
   simp only [Bool.false_eq_true, if_false, loadName_evalFixed, loadGlobal_evalFixed, runPyImport,
-    Env.get?_update, orElse_assoc]
+    Env.get?_update, orElse_assoc, St.own_enter, St.enter_ctx, St.enter_imps, St.enter_bi]
 
 example : (runEval false 1 (runPyImport exSt [("os", .tok .mod "os"), ("abs", .tok .imp "abs")])
       (.name "abs")).1 = .ok (.tok .imp "abs") ∧
-    (runEval false 1 (runPyImport exSt [("os", .tok .mod "os")]) (.name "abs")).1 = .ok (.tok .bi "abs") :=
-  ⟨rfl, rfl⟩
+    (runEval false 1 (runPyImport exSt [("os", .tok .mod "os")]) (.name "abs")).1 = .ok (.tok .bi "abs") := by
+  decide +kernel
 
 /-- The same read from inside a lambda: the same layers in the same order (one namespace object for
     globals and locals). -/
@@ -341,11 +349,12 @@ theorem imports_beside_context_nested (fuel : Nat) (st : St) (bindings : Env) (x
       optRes (orElse (ownInit.get? x) (orElse (st.ctx.get? x) (orElse (Env.get? bindings.reverse x)
         (orElse (st.imps.get? x) (st.bi.get? x))))) := by
   simp only [runEval, Bool.false_eq_true, if_false]
-  rw [lambda_reads_global _ _ _ _ _ rfl (Nat.le_refl _)]
-  simp only [loadGlobal_evalFixed, runPyImport, Env.get?_update, orElse_assoc]
+  rw [lambda_reads_global _ _ _ _ _ rfl]
+  simp only [loadGlobal_evalFixed, runPyImport, Env.get?_update, orElse_assoc, St.own_enter, St.enter_ctx,
+    St.enter_imps, St.enter_bi]
 
 example : (runEval false 4 (runPyImport exSt [("os", .tok .mod "os")]) (.call (.lam [] (.name "os")) [])).1 =
-    .ok (.tok .mod "os") := rfl
+    .ok (.tok .mod "os") := by decide +kernel
 
 /-- `import_visible`: a name bound by pyimport and not a context key resolves to the imported
     object — at top level and inside a lambda. (`__builtins__` is not importable over: the new
@@ -374,7 +383,7 @@ theorem context_shadows_import (fuel : Nat) (st : St) (bindings : Env) (x : Stri
   · rw [imports_beside_context_nested, ownInit_get?_of_ne x hx, hc]; rfl
 
 example : (runEval false 4 (runPyImport exSt [("len", .tok .imp "len")]) (.call (.lam [] (.name "len")) [])).1 =
-    .ok (.tok .ctx "len") := rfl
+    .ok (.tok .ctx "len") := by decide +kernel
 
 /-- `builtins_last`: a name that neither the context nor any pyimport binds falls through to the
     builtins, at top level and inside a lambda alike (`__builtins__` itself is answered by the
@@ -394,8 +403,8 @@ example : (runEval false 4 (runPyImport exSt [("os", .tok .mod "os")]) (.call (.
       .ok (.tok .bi "abs") ∧
     (runEval false 1 exSt (.name "__builtins__")).1 = .ok builtinsTok ∧
     (runEval false 4 exSt (.call (.lam [] (.name "__builtins__")) [])).1 = .ok builtinsTok ∧
-    (runEval false 4 exSt (.call (.lam [] (.name "nope")) [])).1 = .err .nameError :=
-  ⟨rfl, rfl, rfl, rfl⟩
+    (runEval false 4 exSt (.call (.lam [] (.name "nope")) [])).1 = .err .nameError := by
+  decide +kernel
 
 /-- `rehydrate_invisible`: a Context that went through `__getstate__`/`__setstate__` (pickle round
     trip, `copy.deepcopy`, `copy.copy`) keeps context, imports, builtins, heap; and a pyimport made
@@ -418,7 +427,7 @@ example : (runEval false 1 (runPyImport (runRehydrate exSt) [("os", .tok .mod "o
     .ok (.tok .mod "os") ∧
     (runEval false 1 (runClearAll (runPyImport (runRehydrate exSt) [("os", .tok .mod "os")])) (.name "os")).1 =
     .err .nameError ∧
-    (runEval false 1 (runClearAll exSt) (.name "math")).1 = .err .nameError := ⟨rfl, rfl, rfl⟩
+    (runEval false 1 (runClearAll exSt) (.name "math")).1 = .err .nameError := by decide +kernel
 
 /-- `eval_ignores_namespace_object`: for EVERY expression, fuel and state, `get_eval_string` as it is
     now neither reads nor writes the raw dict slot of the per-Context `_pystring_namespace` object:
@@ -428,33 +437,79 @@ example : (runEval false 1 (runPyImport (runRehydrate exSt) [("os", .tok .mod "o
 theorem eval_ignores_namespace_object (fuel : Nat) (st : St) (e : Expr) (h : Env) :
     runEval false fuel { st with hidden := h } e =
       ((runEval false fuel st e).1, { (runEval false fuel st e).2 with hidden := h }) := by
-  have key := (eval_hidden h fuel).1
-    { kind := .module, chain := [], explicit := e.compWalrus, base := st.heap.length } e
-    { st with scratch := ownInit }
+  have key := (eval_hidden h fuel).1 .evalFixed Arr.live_evalFixed
+    { kind := .module, chain := [], explicit := e.compWalrus } e
+    (st.enter .evalFixed ownInit)
   simp only [runEval, Bool.false_eq_true, if_false]
-  change (match evalExpr .evalFixed fuel _ e (St.withHidden h { st with scratch := ownInit }) with
-    | (r, st1) => (r, { st1 with scratch := [] })) = _
+  change (match evalExpr .evalFixed fuel _ e (St.withHidden h (st.enter .evalFixed ownInit)) with
+    | (r, st1) => (r, st1.retire st.next st.cur)) = _
   rw [key]
   rfl
 
 /-- a stale `y` in the per-Context object (what the code before 81f45d6 left behind) is not readable -/
 example : (runEval false 3 { exSt with hidden := exSt.hidden ++ [("y", .cst 2)] } (.name "y")).1 = .err .nameError ∧
     (runEval false 4 { exSt with hidden := exSt.hidden ++ [("y", .cst 2)] } (.call (.lam [] (.name "y")) [])).1 =
-      .err .nameError := ⟨rfl, rfl⟩
+      .err .nameError := by decide +kernel
+
+/-- No `_EvalNamespace` of an earlier `!py` evaluation on THIS Context object is still the globals of
+    a live function / generator object (a fresh Context; one whose `!py` expressions made no lambdas
+    or generator objects that outlived them; one that was just rehydrated). -/
+def NoLiveEvalNs (st : St) : Prop := ∀ p ∈ st.nss, p.2.arr = .evalFixed → p.2.stale = true
+
+theorem runRehydrate_of_noLiveEvalNs (st : St) (h : NoLiveEvalNs st) :
+    runRehydrate st = { st with hidden := ownInit } := by
+  have : st.nss.map (fun p => (p.1, { p.2 with stale := p.2.stale || p.2.arr == .evalFixed })) = st.nss := by
+    have key : ∀ (l : NsTab), (∀ p ∈ l, p.2.arr = .evalFixed → p.2.stale = true) →
+        l.map (fun p => (p.1, { p.2 with stale := p.2.stale || p.2.arr == .evalFixed })) = l := by
+      intro l hl
+      induction l with
+      | nil => rfl
+      | cons p rest ih =>
+        obtain ⟨k, r⟩ := p
+        have h1 := hl (k, r) List.mem_cons_self
+        simp only [List.map_cons, ih (fun q hq => hl q (List.mem_cons_of_mem _ hq))]
+        congr 2
+        cases r with
+        | mk arr own stale =>
+          cases stale with
+          | true => rfl
+          | false =>
+            simp only at h1
+            cases arr <;> first | rfl | exact absurd (h1 rfl) (by decide)
+    exact key st.nss h
+  simp only [runRehydrate, this]
 
 /-- `rehydrate_invisible_everywhere`: a Context that went through `__getstate__`/`__setstate__`
     evaluates EVERY `!py` expression to the same result, with the same effect on the heap, as the
-    original object would have (strengthens `rehydrate_invisible` from name reads to all expressions). -/
-theorem rehydrate_invisible_everywhere (fuel : Nat) (st : St) (e : Expr) :
+    original object would have (strengthens `rehydrate_invisible` from name reads to all expressions)
+    — PROVIDED no function / generator object made by an earlier `!py` evaluation on the original
+    object is still alive (`NoLiveEvalNs`). (Restated: the version without the proviso that stood here
+    while calls of closures of earlier runs were outside the model is FALSE — such an object keeps
+    chaining to the OLD Context object, which the session no longer updates; the model answers
+    `outOfDomain` for it, see the example below and `deferred_scope_resolves`.) -/
+theorem rehydrate_invisible_everywhere (fuel : Nat) (st : St) (e : Expr) (hno : NoLiveEvalNs st) :
     (runEval false fuel (runRehydrate st) e).1 = (runEval false fuel st e).1 ∧
-    (runEval false fuel (runRehydrate st) e).2 = runRehydrate (runEval false fuel st e).2 := by
+    (runEval false fuel (runRehydrate st) e).2 = { (runEval false fuel st e).2 with hidden := ownInit } := by
+  rw [runRehydrate_of_noLiveEvalNs st hno]
   have h := eval_ignores_namespace_object fuel st e ownInit
-  simp only [runRehydrate]
   rw [h]
   exact ⟨rfl, rfl⟩
 
-example : (runEval false 30 (runRehydrate exSt) exExpr).1 = (runEval false 30 exSt exExpr).1 := by
-  decide +kernel
+example : NoLiveEvalNs exSt ∧
+    (runEval false 30 (runRehydrate exSt) exExpr).1 = (runEval false 30 exSt exExpr).1 := by
+  refine ⟨(by intro p hp; cases hp), (by decide +kernel)⟩
+
+/-- Without the proviso: `set: f: !py lambda: a`, then rehydration, then `!py f()` — on the original
+    object the call reads the context's `a`; after rehydration the lambda's namespace object chains to
+    the object left behind: outside the modelled domain. -/
+example :
+    let st1 := (runEvalSet 5 exSt "f" (.lam [] (.name "a"))).2
+    (runEval false 9 st1 (.call (.name "f") [])).1 = .ok (.tok .ctx "a") ∧
+    (runEval false 9 (runRehydrate st1) (.call (.name "f") [])).1 = .err .outOfDomain ∧
+    ¬ NoLiveEvalNs st1 := by
+  refine ⟨by decide +kernel, by decide +kernel, ?_⟩
+  intro h
+  exact absurd (h (0, { arr := .evalFixed, own := ownInit, stale := false }) (by decide +kernel) rfl) (by decide)
 
 /-! ### 5. context keys are variables in every scope -/
 
@@ -469,7 +524,7 @@ theorem eval_one_namespace (sc : Scope) (st : St) (x : String)
     (hchain : chainLoad st.heap x sc.chain = .miss ∨ chainLoad st.heap x sc.chain = .declGlobal)
     (hkind : ∀ r, sc.kind ≠ .cls r) :
     load .evalFixed sc st x =
-      optRes (orElse (st.scratch.get? x) (orElse (st.ctx.get? x)
+      optRes (orElse (st.own.get? x) (orElse (st.ctx.get? x)
         (orElse (st.imps.get? x) (st.bi.get? x)))) := by
   rw [← loadGlobal_evalFixed]
   rcases hchain with h | h
@@ -482,9 +537,9 @@ theorem eval_one_namespace (sc : Scope) (st : St) (x : String)
   · rw [load_of_declGlobal _ _ _ _ h]
 
 example : load .evalFixed { kind := .func, chain := [], explicit := [] }
-      { exSt with scratch := [("a", .cst 5)] } "a" = .ok (.cst 5) ∧
-    load .evalFixed { kind := .module, chain := [], explicit := [] } exSt "a" = .ok (.tok .ctx "a") :=
-  ⟨rfl, rfl⟩
+      (exSt.setOwn [("a", .cst 5)]) "a" = .ok (.cst 5) ∧
+    load .evalFixed { kind := .module, chain := [], explicit := [] } exSt "a" = .ok (.tok .ctx "a") := by
+  decide +kernel
 
 /-- `eval_reads_context_everywhere`: under the `!py` arrangement now (`old = false`) and the one
     before 62901c4 (`old = true`), in EVERY scope, a read of a context key `x` yields the context's
@@ -496,7 +551,7 @@ example : load .evalFixed { kind := .func, chain := [], explicit := [] }
 theorem eval_reads_context_everywhere (old : Bool) (sc : Scope) (st : St) (x : String) (v : V)
     (hchain : chainLoad st.heap x sc.chain = .miss ∨ chainLoad st.heap x sc.chain = .declGlobal)
     (hkind : ∀ r, sc.kind ≠ .cls r)
-    (hown : old = false → st.scratch.get? x = Option.none)
+    (hown : old = false → st.own.get? x = Option.none)
     (hctx : st.ctx.get? x = some v) :
     load (if old then .evalOld else .evalFixed) sc st x = .ok v := by
   cases old with
@@ -527,7 +582,7 @@ theorem eval_reads_context_everywhere (old : Bool) (sc : Scope) (st : St) (x : S
 theorem own_binding_shadows_everywhere (sc : Scope) (st : St) (x : String) (w : V)
     (hchain : chainLoad st.heap x sc.chain = .miss ∨ chainLoad st.heap x sc.chain = .declGlobal)
     (hkind : ∀ r, sc.kind ≠ .cls r)
-    (hown : st.scratch.get? x = some w) :
+    (hown : st.own.get? x = some w) :
     load .evalFixed sc st x = .ok w := by
   rw [eval_one_namespace sc st x hchain hkind, hown]; rfl
 
@@ -538,10 +593,10 @@ theorem own_binding_shadows_everywhere (sc : Scope) (st : St) (x : String) (w : 
 theorem walrus_binds_own_dict (sc : Scope) (st : St) (x : String) (v : V)
     (hchain : chainStore st.heap x sc.chain = .default ∨ chainStore st.heap x sc.chain = .global)
     (hkind : ∀ r, sc.kind ≠ .cls r) :
-    store .evalFixed sc st x v = { st with scratch := st.scratch.set x v } ∧
-    (store .evalFixed sc st x v).scratch.get? x = some v ∧
+    store .evalFixed sc st x v = st.setOwn (st.own.set x v) ∧
+    (store .evalFixed sc st x v).own.get? x = some v ∧
     (store .evalFixed sc st x v).ctx = st.ctx := by
-  have h : store .evalFixed sc st x v = { st with scratch := st.scratch.set x v } := by
+  have h : store .evalFixed sc st x v = st.setOwn (st.own.set x v) := by
     unfold PyNs.store
     rcases hchain with h | h
     · rw [h]
@@ -551,7 +606,7 @@ theorem walrus_binds_own_dict (sc : Scope) (st : St) (x : String) (v : V)
       | cls r => exact absurd hk (hkind r)
     · rw [h]; rfl
   rw [h]
-  exact ⟨rfl, Env.get?_set_same _ _ _, rfl⟩
+  exact ⟨rfl, by rw [St.own_setOwn]; exact Env.get?_set_same _ _ _, rfl⟩
 
 /-- `n` is a context key: `[n for i in T if (n := i)]` reads back what it bound (1, 2), not the
     context's `n`; `([(n := i) for i in T], n, (lambda: n)())` sees the last binding at top level
@@ -575,7 +630,7 @@ example : seqItems (runEval false 40 exSt (.call (.lam ["p"] (.comp true (.call 
       [("i", .name "T", []), ("j", .name "T", [])])) [.name "a"])).2.heap (.ref 7) =
       some [.cst 1, .cst 1, .tok .ctx "a", .tok .ctx "len"] ∧
     (runEval false 40 exSt (.call (.lam ["a"] (.name "a")) [.name "len"])).1 = .ok (.tok .ctx "len") :=
-  ⟨by decide +kernel, rfl⟩
+  ⟨by decide +kernel, by decide +kernel⟩
 
 /-- the hypotheses of the theorem on a scope with two live frames (a function frame declaring `p`
     and a comprehension frame declaring `i`) -/
@@ -585,7 +640,7 @@ example :
        .frame { declared := ["i"], globals := [], isComp := true, vars := [] }] }
     chainLoad st.heap "a" [3, 2] = .miss ∧ chainLoad st.heap "p" [3, 2] = .val (.cst 0) ∧
     load .evalFixed { kind := .func, chain := [3, 2], explicit := [] } st "a" = .ok (.tok .ctx "a") :=
-  ⟨by decide +kernel, by decide +kernel, rfl⟩
+  ⟨by decide +kernel, by decide +kernel, by decide +kernel⟩
 
 /-- `exec_reads_context_everywhere`: the py step's namespace starts as a copy of the context (plus
     `__builtins__`, `save`), so every context key other than those two names reads as the context's
@@ -597,7 +652,7 @@ example :
 theorem exec_reads_context_everywhere (sc : Scope) (st : St) (x : String) (v : V)
     (hchain : chainLoad st.heap x sc.chain = .miss ∨ chainLoad st.heap x sc.chain = .declGlobal)
     (hcls : ∀ r, sc.kind = .cls r → clsGet st.heap r x = Option.none)
-    (hns : st.ns.get? x = some v) :
+    (hns : st.own.get? x = some v) :
     load .exec sc st x = .ok v := by
   rcases hchain with h | h
   · cases hk : sc.kind with
@@ -656,13 +711,15 @@ example : exSt.ctx.get? "L" = some (.ref 1) ∧ exSt.heap[1]? = some (.list [.cs
 
 /-- `inplace_visible_py_step`: the py step hands the block a SHALLOW copy of the context
     (`context.copy()`): the statement `k.append(n)` on a context key holding a list returns with the
-    context untouched, and the list behind the context's reference longer by `n` — the whole final
-    state, for every starting state. -/
+    context untouched, and the list behind the context's reference longer by `n`, for every starting
+    state. -/
 theorem inplace_visible_py_step (fuel : Nat) (st : St) (k : String) (r : Nat) (xs : List V) (n : Nat)
     (h1 : k ≠ "__builtins__") (h2 : k ≠ "save")
     (hk : st.ctx.get? k = some (.ref r)) (hr : st.heap[r]? = some (.list xs)) :
-    runPyStep (fuel + 2) st [.expr (.append (.name k) (.const n))] =
-      (.ok (), { st with heap := st.heap.set r (.list (xs ++ [.cst n])), ns := [] }) := by
+    (runPyStep (fuel + 2) st [.expr (.append (.name k) (.const n))]).1 = .ok () ∧
+    (runPyStep (fuel + 2) st [.expr (.append (.name k) (.const n))]).2.ctx = st.ctx ∧
+    (runPyStep (fuel + 2) st [.expr (.append (.name k) (.const n))]).2.heap =
+      st.heap.set r (.list (xs ++ [.cst n])) := by
   simp [runPyStep, execBlock, execStmt, evalExpr, load, chainLoad, blockExplicit, Stmt.explicit,
     Expr.compWalrus, loadName, localsGetItem, pyStepNs_get? _ _ h1 h2, hk, orElse, optRes,
     appendable, hr, doAppend, St.heapSet]
@@ -675,24 +732,549 @@ example : seqItems (runPyStep 2 exSt [.expr (.append (.name "L") (.const 9))]).2
 theorem inplace_visible_eval (fuel : Nat) (st : St) (k : String) (r : Nat) (xs : List V) (n : Nat)
     (h1 : k ≠ "__builtins__")
     (hk : st.ctx.get? k = some (.ref r)) (hr : st.heap[r]? = some (.list xs)) :
-    runEval false (fuel + 2) st (.append (.name k) (.const n)) =
-      (.ok .none, { st with heap := st.heap.set r (.list (xs ++ [.cst n])), scratch := [] }) := by
+    (runEval false (fuel + 2) st (.append (.name k) (.const n))).1 = .ok .none ∧
+    (runEval false (fuel + 2) st (.append (.name k) (.const n))).2.ctx = st.ctx ∧
+    (runEval false (fuel + 2) st (.append (.name k) (.const n))).2.heap =
+      st.heap.set r (.list (xs ++ [.cst n])) := by
   simp [runEval, evalExpr, load, chainLoad, Expr.compWalrus, loadName, localsGetItem, hk, orElse,
     optRes, appendable, hr, doAppend, St.heapSet, ownInit_get?_of_ne k h1]
 
 example : seqItems (runEval false 2 exSt (.append (.name "L") (.const 9))).2.heap (.ref 1) =
     some [.cst 7, .cst 9] := by decide +kernel
 
+/-- `inplace_visible_setitem`: item assignment through a reference (`k[i] = w`, `k.__setitem__(i, w)`):
+    the context keeps the same reference, the list behind it has the new item at position `i`. -/
+theorem inplace_visible_setitem (st : St) (k : String) (r i : Nat) (xs : List V) (w : V)
+    (hk : st.ctx.get? k = some (.ref r)) (hr : st.heap[r]? = some (.list xs)) (hi : i < xs.length) :
+    (doSetItem st (.ref r) i w).1 = .ok () ∧
+    (doSetItem st (.ref r) i w).2.ctx = st.ctx ∧
+    (doSetItem st (.ref r) i w).2.ctx.get? k = some (.ref r) ∧
+    seqItems (doSetItem st (.ref r) i w).2.heap (.ref r) = some (xs.set i w) := by
+  have hlt : r < st.heap.length := by
+    rcases Nat.lt_or_ge r st.heap.length with h | h
+    · exact h
+    · rw [List.getElem?_eq_none h] at hr; cases hr
+  simp [doSetItem, hr, hi, St.heapSet, seqItems, List.getElem?_set_self hlt, hk]
+
+/-- `inplace_visible_iadd`: augmented assignment on a list value (`k += ys`): `list.__iadd__` extends
+    the SAME object in place — the value handed back for rebinding is the very reference the context
+    holds, the list behind it is longer by the items of `w`, the context is untouched. -/
+theorem inplace_visible_iadd (st : St) (k : String) (r r2 : Nat) (xs ys : List V)
+    (hk : st.ctx.get? k = some (.ref r)) (hr : st.heap[r]? = some (.list xs))
+    (hw : st.heap[r2]? = some (.tuple ys)) :
+    (iadd st (.ref r) (.ref r2)).1 = .ok (.ref r) ∧
+    (iadd st (.ref r) (.ref r2)).2.ctx = st.ctx ∧
+    (iadd st (.ref r) (.ref r2)).2.ctx.get? k = some (.ref r) ∧
+    seqItems (iadd st (.ref r) (.ref r2)).2.heap (.ref r) = some (xs ++ ys) := by
+  have hlt : r < st.heap.length := by
+    rcases Nat.lt_or_ge r st.heap.length with h | h
+    · exact h
+    · rw [List.getElem?_eq_none h] at hr; cases hr
+  simp [iadd, hr, iterable, hw, seqItems, St.heapSet, List.getElem?_set_self hlt, hk]
+
+/-- through a py block: `L[0] = T; L += T; L.__setitem__(1, a)` — the block's copy of `L` is the same
+    object the context holds; every one of the three mutations shows through the context's reference,
+    the context's own bindings are untouched. -/
+example :
+    let b : List Stmt := [.setitem (.name "L") 0 (.name "T"), .aug "L" (.name "T"),
+                          .expr (.setitem (.name "L") 1 (.name "a"))]
+    (runPyStep 20 exSt b).1 = .ok () ∧ (runPyStep 20 exSt b).2.ctx = exSt.ctx ∧
+    seqItems (runPyStep 20 exSt b).2.heap (.ref 1) = some [.ref 0, .tok .ctx "a", .cst 2] ∧
+    (runPyStep 20 exSt [.setitem (.name "L") 3 (.name "a")]).1 = .err .indexError ∧
+    (runPyStep 20 exSt [.setitem (.name "T") 0 (.name "a")]).1 = .err .typeError ∧
+    (runEval false 20 exSt (.setitem (.name "T") 0 (.name "a"))).1 = .err .attributeError := by
+  decide +kernel
+
 /-- `heap_not_rolled_back`: whatever a block does to heap cells is what the step returns — the step
     drops its namespace dict and nothing else; together with `exec_frame` (unsaved keys keep their
     references) every in-place mutation made by ANY block is visible through the context afterwards. -/
 theorem heap_not_rolled_back (fuel : Nat) (st : St) (b : List Stmt) :
     (runPyStep fuel st b).2.heap =
-      (execBlock .exec fuel { kind := .module, chain := [], explicit := blockExplicit b, base := st.heap.length } b
-        { st with ns := pyStepNs st.ctx }).2.heap := rfl
+      (execBlock .exec fuel { kind := .module, chain := [], explicit := blockExplicit b } b
+        (st.enter .exec (pyStepNs st.ctx))).2.heap := rfl
 
 example : (runPyStep 30 exSt exBlock).2.ctx.get? "L" = some (.ref 1) ∧
     seqItems (runPyStep 30 exSt exBlock).2.heap (.ref 1) = some [.cst 7, .tok .ctx "a"] := by
   decide +kernel
+
+/-! ### 7. deferred nested scopes: a function / generator object made by one run, run LATER
+
+  `foreach: !py (n * scale for n in numbers)` — the step runner pulls the generator after the evaluation
+  has returned; `set: f: !py lambda v: v * factor` — a later `!py f(3)` calls the lambda. The object's
+  `__globals__` is the namespace object of the evaluation that made it: pypyr has dropped its own
+  reference, the object keeps it alive, and its `maps` still are the live `Context` and the live
+  imports dict. So the deferred body reads: what its own evaluation bound (`:=`), then the context AS
+  IT IS WHEN THE BODY RUNS, then the imports as they are then, then the builtins. -/
+
+/-- `deferred_scope_resolves`: code whose globals is the namespace object `j` of a FINISHED `!py`
+    evaluation (`j ≠ st.cur`; the record is an `_EvalNamespace`, not stale), entered from code running
+    under ANY arrangement `a`, runs under `.evalFixed` against that object; and there — in every
+    scope nesting, whatever the heap has become — a read of a name no enclosing local scope declares
+    resolves: the own dict of THAT namespace object (what its evaluation bound itself), then the
+    CURRENT context, then the CURRENT imports, then the builtins. -/
+theorem deferred_scope_resolves (a : Arr) (st : St) (j : Nat) (rec : NsRec) (sc : Scope) (x : String)
+    (h : List Cell)
+    (hrec : nsGet st.nss j = some rec) (harr : rec.arr = .evalFixed) (hstale : rec.stale = false)
+    (hj : j ≠ st.cur)
+    (hchain : chainLoad h x sc.chain = .miss ∨ chainLoad h x sc.chain = .declGlobal)
+    (hkind : ∀ r, sc.kind ≠ .cls r) :
+    target a st j = some .evalFixed ∧
+    load .evalFixed sc { st.setCur j with heap := h } x =
+      optRes (orElse (rec.own.get? x) (orElse (st.ctx.get? x) (orElse (st.imps.get? x) (st.bi.get? x)))) := by
+  constructor
+  · simp [target, hj, hrec, hstale, harr]
+  · rw [eval_one_namespace _ _ _ hchain hkind]
+    have : ({ st.setCur j with heap := h } : St).own = rec.own := by simp [St.own, St.setCur, hrec]
+    rw [this]
+    rfl
+
+/-- `deferred_call_runs_in_its_namespace`: what a call does, whoever makes it: the body runs with
+    `cur` = the function's own namespace object under that object's arrangement (`target`), and `cur`
+    is put back when the call returns or raises. -/
+theorem deferred_call_runs_in_its_namespace (a a' : Arr) (fuel : Nat) (ex : List String) (r : Nat)
+    (c : Closure) (vs : List V) (st : St)
+    (hr : st.heap[r]? = some (.clo c)) (ht : target a st c.ns = some a')
+    (hlen : c.params.length = vs.length) :
+    callFn a (fuel + 1) ex (.ref r) vs st =
+      (match runBody a' fuel { kind := .func, chain := st.heap.length :: c.chain, explicit := ex } c.body
+          ((st.setCur c.ns).alloc (.frame { declared := fnDeclared c.params c.globals c.body c.ret,
+                                            globals := c.globals, isComp := false,
+                                            vars := c.params.zip vs })).2 with
+       | (.err er, st2) => (.err er, st2.setCur st.cur)
+       | (.ok _, st2) =>
+         ((evalExpr a' fuel { kind := .func, chain := st.heap.length :: c.chain, explicit := ex } c.ret st2).1,
+          (evalExpr a' fuel { kind := .func, chain := st.heap.length :: c.chain, explicit := ex } c.ret st2).2.setCur
+            st.cur)) := by
+  simp [callFn, callee, hr, ht, hlen]
+  rfl
+
+/-- `deferred_lambda_reads_current_context`: the function object of `lambda: x` made by an earlier
+    `!py` evaluation (namespace object `j`), called by ANY later code (a `!py` expression, a py block,
+    a function of yet another run): the result is what `x` resolves to NOW — own dict of `j`, current
+    context, current imports, builtins; the caller's own namespace object plays no part. -/
+theorem deferred_lambda_reads_current_context (a : Arr) (fuel : Nat) (ex : List String) (st : St)
+    (r j : Nat) (rec : NsRec) (x : String)
+    (hr : st.heap[r]? = some (.clo { params := [], globals := [], body := [], ret := .name x, chain := [], ns := j }))
+    (hrec : nsGet st.nss j = some rec) (harr : rec.arr = .evalFixed) (hstale : rec.stale = false)
+    (hj : j ≠ st.cur) :
+    (callFn a (fuel + 3) ex (.ref r) [] st).1 =
+      optRes (orElse (rec.own.get? x) (orElse (st.ctx.get? x) (orElse (st.imps.get? x) (st.bi.get? x)))) ∧
+    (callFn a (fuel + 3) ex (.ref r) [] st).2.ctx = st.ctx ∧
+    (callFn a (fuel + 3) ex (.ref r) [] st).2.cur = st.cur := by
+  have ht : target a st j = some .evalFixed := by simp [target, hj, hrec, hstale, harr]
+  rw [deferred_call_runs_in_its_namespace a .evalFixed (fuel + 2) ex r _ [] st hr ht rfl]
+  simp only [runBody, evalExpr]
+  have hd := (deferred_scope_resolves a st j rec
+    { kind := .func, chain := [st.heap.length], explicit := ex } x
+    (st.heap ++ [.frame { declared := fnDeclared [] [] [] (.name x), globals := [], isComp := false, vars := [] }])
+    hrec harr hstale hj
+    (by simp [chainLoad, fnDeclared, bodyAssigned, Expr.assigned]) (by intro r h; cases h)).2
+  exact ⟨hd, rfl, rfl⟩
+
+/-- End to end, on the example world: `set: f: !py lambda: (a, math, abs)`; the context's `a` is
+    REPLACED; `pyimport` registers `abs` and re-registers `math`; then `!py f()` reads the new `a`, the
+    new imports — and after `contextclearall` the same call is a NameError (the same two objects,
+    emptied). -/
+example :
+    let lam : Expr := .lam [] (.tuple [.name "a", .name "math", .name "abs"])
+    let st1 := (runEvalSet 9 exSt "f" lam).2
+    let st2 := runPyImport (runCtxSet st1 [("a", .tok .ctx "a#1")]) [("abs", .tok .imp "abs"), ("math", .tok .mod "os")]
+    (∃ r, (runEval false 9 st1 (.call (.name "f") [])).1 = .ok (.ref r) ∧
+      seqItems (runEval false 9 st1 (.call (.name "f") [])).2.heap (.ref r) =
+        some [.tok .ctx "a", .tok .mod "math", .tok .bi "abs"]) ∧
+    (∃ r, (runEval false 9 st2 (.call (.name "f") [])).1 = .ok (.ref r) ∧
+      seqItems (runEval false 9 st2 (.call (.name "f") [])).2.heap (.ref r) =
+        some [.tok .ctx "a#1", .tok .mod "os", .tok .imp "abs"]) ∧
+    (runEval false 9 st2 (.call (.name "f") [])).2.ctx = st2.ctx ∧
+    st2.ctx.get? "f" = some (.ref 2) ∧
+    (runEval false 9 (runCtxSet (runClearAll st2) [("f", .ref 2)]) (.call (.name "f") [])).1 = .err .nameError := by
+  refine ⟨⟨4, by decide +kernel, by decide +kernel⟩, ⟨4, by decide +kernel, by decide +kernel⟩,
+    by decide +kernel, by decide +kernel, by decide +kernel⟩
+
+/-- `deferred_pull_runs_in_its_namespace`: the same for a generator object: `next()` on a suspended
+    generator — from `[*g]` in a later expression, from the step runner's `for i in foreach:` — runs its
+    body with `cur` = the generator's own namespace object under that object's arrangement, marks the
+    generator running meanwhile, and puts `cur` back. -/
+theorem deferred_pull_runs_in_its_namespace (a a' : Arr) (fuel : Nat) (r : Nat) (g : GenObj) (st : St)
+    (hr : st.heap[r]? = some (.gen g)) (hs : g.status = .suspended) (ht : target a st g.ns = some a') :
+    pullGen a (fuel + 1) r st =
+      (match genLoop a' fuel { kind := .func, chain := g.chain, explicit := [] } g.frame g.elt g.clauses g.stack
+          ((st.setCur g.ns).heapSet r (.gen { g with status := .running })) with
+       | (.err er, st1) =>
+         (.err er, (st1.setCur st.cur).heapSet r (.gen { g with status := .done, stack := [] }))
+       | (.ok (Option.none, _), st1) =>
+         (.ok Option.none, (st1.setCur st.cur).heapSet r (.gen { g with status := .done, stack := [] }))
+       | (.ok (some w, stack'), st1) =>
+         (.ok (some w), (st1.setCur st.cur).heapSet r (.gen { g with status := .suspended, stack := stack' }))) := by
+  simp [pullGen, hr, hs, ht]
+  rfl
+
+/-- `foreach: !py ((n, a, i) for n in T)` on the example world with `i` absent: the first iterable is
+    read when the expression is evaluated, the body at each pull — the first pull cannot read `i`
+    (NameError); with `a`, `abs` only: both items arrive, each reading the context at ITS pull (the
+    second one sees the `i` the step runner wrote for the first). -/
+example :
+    (runForeach 20 exSt (.gen (.tuple [.name "n", .name "a", .name "i"]) [("n", .name "T", [])])).1 =
+      .err .nameError ∧
+    (∃ r1 r2, (runForeach 20 exSt (.gen (.tuple [.name "n", .name "a", .name "abs"]) [("n", .name "T", [])])).1 =
+        .ok [.ref r1, .ref r2] ∧
+      seqItems (runForeach 20 exSt (.gen (.tuple [.name "n", .name "a", .name "abs"]) [("n", .name "T", [])])).2.heap
+        (.ref r1) = some [.cst 1, .tok .ctx "a", .tok .bi "abs"]) ∧
+    (∃ r1 r2, (runForeach 20 { exSt with ctx := exSt.ctx ++ [("i", .cst 0)] }
+          (.gen (.tuple [.name "n", .name "i"]) [("n", .name "T", [])])).1 = .ok [.ref r1, .ref r2] ∧
+      seqItems (runForeach 20 { exSt with ctx := exSt.ctx ++ [("i", .cst 0)] }
+          (.gen (.tuple [.name "n", .name "i"]) [("n", .name "T", [])])).2.heap (.ref r2) =
+        some [.cst 2, .ref r1]) := by
+  refine ⟨by decide +kernel, ⟨4, 5, by decide +kernel, by decide +kernel⟩,
+    ⟨4, 5, by decide +kernel, by decide +kernel⟩⟩
+
+/-- A generator kept in the context (`set: g: !py ((n, a) for n in T)`), the context's `a` replaced, then
+    drained by a LATER expression: every item carries the new `a`; a second drain finds it exhausted. -/
+example :
+    let st1 := (runEvalSet 9 exSt "g" (.gen (.tuple [.name "n", .name "a"]) [("n", .name "T", [])])).2
+    let st2 := runCtxSet st1 [("a", .tok .ctx "a#1")]
+    (∃ r, (runEval false 20 st2 (.comp false (.name "x") [("x", .drain (.name "g"), [])])).1 = .ok (.ref r) ∧
+      (seqItems (runEval false 20 st2 (.comp false (.name "x") [("x", .drain (.name "g"), [])])).2.heap (.ref r)).map
+        (fun l => l.map (seqItems (runEval false 20 st2 (.comp false (.name "x") [("x", .drain (.name "g"), [])])).2.heap)) =
+        some [some [.cst 1, .tok .ctx "a#1"], some [.cst 2, .tok .ctx "a#1"]]) ∧
+    (runEval false 20 st2 (.comp false (.name "x") [("x", .drain (.name "g"), [])])).2.ctx = st2.ctx := by
+  refine ⟨⟨8, by decide +kernel, by decide +kernel⟩, by decide +kernel⟩
+
+/-- `evalset_frame`: `set: k: !py <e>` changes the context by exactly: key `set` popped, key `k` bound
+    to the value (when the evaluation returned); imports, builtins, the per-Context namespace object
+    are untouched — whatever the expression is. -/
+theorem evalset_frame (fuel : Nat) (st : St) (k : String) (e : Expr) :
+    (runEvalSet fuel st k e).2.ctx =
+      (match (runEvalSet fuel st k e).1 with
+       | .ok v => (st.ctx.erase "set").set k v
+       | .err _ => st.ctx.erase "set") ∧
+    (runEvalSet fuel st k e).2.imps = st.imps ∧
+    (runEvalSet fuel st k e).2.hidden = st.hidden ∧
+    (runEvalSet fuel st k e).2.bi = st.bi ∧
+    (runEvalSet fuel st k e).2.saved = st.saved := by
+  obtain ⟨h1, h2, h3, h4, h5, _⟩ := eval_frame_fields fuel { st with ctx := st.ctx.erase "set" } e
+  unfold runEvalSet
+  split
+  · rename_i er st1 heq
+    rw [heq] at h1 h2 h3 h4 h5
+    exact ⟨h1, h2, h3, h4, h5⟩
+  · rename_i v st1 heq
+    rw [heq] at h1 h2 h3 h4 h5
+    simp only at h1 h2 h3 h4 h5
+    exact ⟨by simp only [h1], h2, h3, h4, h5⟩
+
+/-- The frame of the step runner's loop: the context after it is the context before with key `i`
+    set to each item in turn, nothing else. -/
+theorem foreachLoop_frame (fuel : Nat) : ∀ (n : Nat) (v : V) (idx : Nat) (acc : List V) (st : St),
+    ∃ ws : List V,
+      (foreachLoop fuel n v idx acc st).2.ctx = ws.foldl (fun c w => c.set "i" w) st.ctx ∧
+      (∀ vs, (foreachLoop fuel n v idx acc st).1 = .ok vs → vs = acc ++ ws) ∧
+      (foreachLoop fuel n v idx acc st).2.imps = st.imps ∧
+      (foreachLoop fuel n v idx acc st).2.hidden = st.hidden ∧
+      (foreachLoop fuel n v idx acc st).2.bi = st.bi ∧
+      (foreachLoop fuel n v idx acc st).2.saved = st.saved := by
+  intro n
+  induction n with
+  | zero =>
+    intro v idx acc st
+    exact ⟨[], rfl, (by intro vs h; cases h), rfl, rfl, rfl, rfl⟩
+  | succ n ih =>
+    intro v idx acc st
+    unfold foreachLoop
+    split
+    · rename_i r _
+      have hp := pullGen_live_rest Arr.live_exec fuel r (st.setCur st.next)
+      split
+      · rename_i er st1 heq
+        rw [heq] at hp
+        simp only [St.evalRest, Prod.mk.injEq] at hp
+        obtain ⟨p1, p2, p3, p4, p5⟩ := hp
+        exact ⟨[], p1, (by intro vs h; cases h), p2, p3, p4, p5⟩
+      · rename_i st1 heq
+        rw [heq] at hp
+        simp only [St.evalRest, Prod.mk.injEq] at hp
+        obtain ⟨p1, p2, p3, p4, p5⟩ := hp
+        exact ⟨[], p1, (by intro vs h; simp only [R.ok.injEq] at h; simp [h]), p2, p3, p4, p5⟩
+      · rename_i w st1 heq
+        rw [heq] at hp
+        simp only [St.evalRest, Prod.mk.injEq] at hp
+        obtain ⟨p1, p2, p3, p4, p5⟩ := hp
+        obtain ⟨ws, h1, h2, h3, h4, h5, h6⟩ := ih v (idx + 1) (acc ++ [w]) (runCtxSet (st1.setCur st.cur) [("i", w)])
+        refine ⟨w :: ws, ?_, ?_, ?_, ?_, ?_, ?_⟩
+        · rw [h1]
+          simp only [List.foldl_cons]
+          have : (runCtxSet (st1.setCur st.cur) [("i", w)]).ctx = st.ctx.set "i" w := by
+            show (st1.ctx.update [("i", w)]) = _
+            rw [show st1.ctx = st.ctx from p1]; rfl
+          rw [this]
+        · intro vs hv; rw [h2 vs hv]; simp
+        · rw [h3]; exact p2
+        · rw [h4]; exact p3
+        · rw [h5]; exact p4
+        · rw [h6]; exact p5
+    · split
+      · exact ⟨[], rfl, (by intro vs h; simp only [R.ok.injEq] at h; simp [h]), rfl, rfl, rfl, rfl⟩
+      · rename_i w _
+        obtain ⟨ws, h1, h2, h3, h4, h5, h6⟩ := ih v (idx + 1) (acc ++ [w]) (runCtxSet st [("i", w)])
+        refine ⟨w :: ws, ?_, ?_, h3, h4, h5, h6⟩
+        · rw [h1]; rfl
+        · intro vs hv; rw [h2 vs hv]; simp
+
+/-- `foreach_frame`: `foreach: !py <e>` — evaluation, then the loop, generator bodies running at every
+    pull — leaves the context as it was except for key `i`, which the STEP RUNNER (not the
+    expression) sets to each item in turn: `ws` are the items delivered (all of them when the loop
+    finishes); imports, builtins, the per-Context namespace object are untouched. -/
+theorem foreach_frame (fuel : Nat) (st : St) (e : Expr) :
+    ∃ ws : List V,
+      (runForeach fuel st e).2.ctx = ws.foldl (fun c w => c.set "i" w) st.ctx ∧
+      (∀ vs, (runForeach fuel st e).1 = .ok vs → vs = ws) ∧
+      (runForeach fuel st e).2.imps = st.imps ∧
+      (runForeach fuel st e).2.hidden = st.hidden ∧
+      (runForeach fuel st e).2.bi = st.bi ∧
+      (runForeach fuel st e).2.saved = st.saved := by
+  obtain ⟨h1, h2, h3, h4, h5, _⟩ := eval_frame_fields fuel st e
+  unfold runForeach
+  split
+  · rename_i er st1 heq
+    rw [heq] at h1 h2 h3 h4 h5
+    exact ⟨[], h1, (by intro vs h; cases h), h2, h3, h4, h5⟩
+  · rename_i v st1 heq
+    rw [heq] at h1 h2 h3 h4 h5
+    simp only at h1 h2 h3 h4 h5
+    split
+    · exact ⟨[], h1, (by intro vs h; cases h), h2, h3, h4, h5⟩
+    · obtain ⟨ws, g1, g2, g3, g4, g5, g6⟩ := foreachLoop_frame fuel fuel v 0 [] st1
+      refine ⟨ws, by rw [g1, h1], ?_, by rw [g3, h2], by rw [g4, h3], by rw [g5, h4], by rw [g6, h5]⟩
+      intro vs hv
+      simpa using g2 vs hv
+
+/-- keys other than `i` read after a `foreach` as before it -/
+theorem foreach_only_i_changes (fuel : Nat) (st : St) (e : Expr) (k : String) (hk : k ≠ "i") :
+    (runForeach fuel st e).2.ctx.get? k = st.ctx.get? k := by
+  obtain ⟨ws, h1, _⟩ := foreach_frame fuel st e
+  rw [h1]
+  have key : ∀ (ws : List V) (c : Env), (ws.foldl (fun c w => c.set "i" w) c).get? k = c.get? k := by
+    intro ws
+    induction ws with
+    | nil => intro c; rfl
+    | cons w rest ih =>
+      intro c
+      simp only [List.foldl_cons]
+      rw [ih, Env.get?_set_other _ _ _ _ (Ne.symm hk)]
+  exact key ws st.ctx
+
+example : (runForeach 20 exSt (.gen (.tuple [.name "n", .name "a", .name "abs"]) [("n", .name "T", [])])).2.ctx.get? "i" =
+      some (.ref 5) ∧
+    Env.keys (runForeach 20 exSt (.gen (.tuple [.name "n", .name "a", .name "abs"]) [("n", .name "T", [])])).2.ctx =
+      ["a", "len", "T", "L", "i"] := by decide +kernel
+
+/-! ### 8. the namespace object's own methods (`globals().pop('a')` …) stay within its own dict -/
+
+/-- `nsop_own_dict_only`: a call of `pop`, `popitem`, `clear`, `setdefault`, `update`, `__setitem__`,
+    `__delitem__`, `__ior__` on the namespace object of the running code changes nothing but the own
+    dict of that object (`eval_frame` / `exec_frame` say the same for whole expressions / blocks that
+    contain such calls: `nsop` is a constructor of the language they quantify over). -/
+theorem nsop_own_dict_only (a : Arr) (st : St) (m : NsMeth) (k : String) (w : V) :
+    (nsopApply a st m k w).2.ctx = st.ctx ∧ (nsopApply a st m k w).2.imps = st.imps ∧
+    (nsopApply a st m k w).2.hidden = st.hidden ∧ (nsopApply a st m k w).2.heap = st.heap ∧
+    (nsopApply a st m k w).2.cur = st.cur := by
+  unfold nsopApply
+  split <;> exact ⟨rfl, rfl, rfl, rfl, rfl⟩
+
+/-- `ns_pop_of_context_key`: `globals().pop('k')` for a name that is a context key (and not bound by
+    the expression itself) is a KeyError and removes nothing — the key stays readable; with a default,
+    the default comes back. (Plain Python with a dict would hand out the value and forget the
+    variable: this is the one place where the namespace object is visibly not a dict; see section 10.) -/
+theorem ns_pop_of_context_key (st : St) (k : String) (w v : V)
+    (hown : st.own.get? k = Option.none) (hctx : st.ctx.get? k = some v) :
+    (nsopApply .evalFixed st .pop1 k w).1 = .err .keyError ∧
+    (nsopApply .evalFixed st .pop2 k w).1 = .ok w ∧
+    (nsopApply .evalFixed st .pop1 k w).2.ctx.get? k = some v ∧
+    loadGlobal .evalFixed (nsopApply .evalFixed st .pop1 k w).2 k = some v := by
+  simp [nsopApply, nsopOwn, hown, hctx, loadGlobal_evalFixed, orElse]
+
+/-- `clear()` then reads: the context, the imports and the builtins are all still there, at top level
+    and in a lambda; `pop('a')` on the context key `a` raises KeyError; `update(a=…)` / `__ior__`
+    shadow `a` for this evaluation only. The context is untouched throughout. -/
+example :
+    let e1 : Expr := .tuple [.nsop .clear "" (.const 0), .name "a", .call (.lam [] (.name "abs")) [], .name "math"]
+    let e2 : Expr := .nsop .pop1 "a" (.const 0)
+    let e3 : Expr := .tuple [.nsop .update "a" (.const 5), .nsop .ior "len" (.const 6), .name "a",
+                             .call (.lam [] (.name "len")) []]
+    (∃ r, (runEval false 20 exSt e1).1 = .ok (.ref r) ∧
+      seqItems (runEval false 20 exSt e1).2.heap (.ref r) =
+        some [.none, .tok .ctx "a", .tok .bi "abs", .tok .mod "math"]) ∧
+    (runEval false 20 exSt e2).1 = .err .keyError ∧
+    (∃ r, (runEval false 20 exSt e3).1 = .ok (.ref r) ∧
+      seqItems (runEval false 20 exSt e3).2.heap (.ref r) = some [.none, .none, .cst 5, .cst 6]) ∧
+    (runEval false 20 exSt e1).2.ctx = exSt.ctx ∧ (runEval false 20 exSt e3).2.ctx = exSt.ctx ∧
+    (runEval false 20 (runEval false 20 exSt e3).2 (.name "a")).1 = .ok (.tok .ctx "a") := by
+  refine ⟨⟨4, by decide +kernel, by decide +kernel⟩, by decide +kernel,
+    ⟨4, by decide +kernel, by decide +kernel⟩, by decide +kernel, by decide +kernel, by decide +kernel⟩
+
+/-- What `ChainMap`'s own `pop` / `popitem` / `clear` / `__ior__` do (the code before 8754088 /
+    633921f inherited them): they act on `maps[0]` — the context. -/
+def chainMapMethodOnContext (ctx : Env) (m : NsMeth) (k : String) (w : V) : Env :=
+  match m with
+  | .pop1 => ctx.erase k
+  | .pop2 => ctx.erase k
+  | .popitem => (match ctx.reverse with | (k', _) :: _ => ctx.erase k' | [] => ctx)
+  | .clear => []
+  | .ior => ctx.set k w
+  | _ => ctx
+
+/-- `ns_method_leak_pre_fix`: the witnesses of the two repaired defects: with the inherited methods
+    `globals().pop('a')` removes the context key, `clear()` empties the context, `__ior__({'zz': 1})`
+    adds a key; with the methods as they are now the context is as it was. -/
+theorem ns_method_leak_pre_fix :
+    (chainMapMethodOnContext exSt.ctx .pop1 "a" .none).get? "a" = Option.none ∧
+    chainMapMethodOnContext exSt.ctx .clear "" .none = [] ∧
+    (chainMapMethodOnContext exSt.ctx .ior "zz" (.cst 1)).get? "zz" = some (.cst 1) ∧
+    (runEval false 5 exSt (.nsop .pop2 "a" (.const 0))).2.ctx = exSt.ctx ∧
+    (runEval false 5 exSt (.nsop .clear "" (.const 0))).2.ctx = exSt.ctx ∧
+    (runEval false 5 exSt (.nsop .ior "zz" (.const 1))).2.ctx = exSt.ctx := by
+  decide +kernel
+
+/-! ### 9. a py block gets the context — not the pyimport names
+
+  The reading of the property taken (ASSUMPTIONS of the check): "names imported through pyimport"
+  are for `!py` strings (`Context.get_eval_string` chains them behind the context); `pypyr.steps.py`
+  copies the context and nothing else (`globals = context.copy()`), a block imports for itself. -/
+
+/-- `py_step_ignores_pyimport`: in a py block a name that only pyimport binds is a NameError — whatever
+    the pyimport namespace holds — at top level and in a function; and what the block does never
+    depends on a pyimport name standing in front of a context key (there is none to stand: the
+    namespace is built from the context alone, `pyStepNs`). -/
+theorem py_step_ignores_pyimport (fuel : Nat) (st : St) (x : String)
+    (h1 : x ≠ "__builtins__") (h2 : x ≠ "save")
+    (hc : st.ctx.get? x = Option.none) (hb : st.bi.get? x = Option.none) :
+    (runPyStep (fuel + 2) st [.expr (.name x)]).1 = .err .nameError ∧
+    (runPyStep (fuel + 5) st [.expr (.call (.lam [] (.name x)) [])]).1 = .err .nameError := by
+  constructor
+  · simp [runPyStep, execBlock, execStmt, evalExpr, load, chainLoad, blockExplicit, Stmt.explicit,
+      Expr.compWalrus, loadName, localsGetItem, globalsRaw, pyStepNs_get? _ _ h1 h2, hc, hb, orElse, optRes]
+  · have h := lambda_reads_global .exec (fuel + 2) { kind := .module, chain := [], explicit := [] }
+      (st.enter .exec (pyStepNs st.ctx)) x rfl
+    have hg : loadGlobal .exec (st.enter .exec (pyStepNs st.ctx)) x = Option.none := by
+      simp [loadGlobal, globalsGetItem, pyStepNs_get? _ _ h1 h2, hc, hb, orElse]
+    rw [hg] at h
+    simp only [runPyStep, execBlock, execStmt, blockExplicit, Stmt.explicit, Expr.compWalrus,
+      compWalrusL, List.append_nil]
+    rcases hres : evalExpr .exec (fuel + 2 + 3) { kind := .module, chain := [], explicit := [] }
+      (.call (.lam [] (.name x)) []) (st.enter .exec (pyStepNs st.ctx)) with ⟨r, st1⟩
+    rw [hres] at h
+    simp only [optRes] at h
+    subst h
+    rfl
+
+example : exSt.imps.get? "math" = some (.tok .mod "math") ∧
+    (runPyStep 9 exSt [.expr (.name "math")]).1 = .err .nameError ∧
+    (runPyStep 9 exSt [.expr (.call (.lam [] (.name "math")) [])]).1 = .err .nameError ∧
+    (runEval false 9 exSt (.name "math")).1 = .ok (.tok .mod "math") := by decide +kernel
+
+/-! ### 10. "as plain variables": the three layers behave as ONE dict (partial)
+
+  The property's observation point "value of the expression vs plain eval in dict(context)". What plain
+  Python does with `eval(src, D)` for one exact dict `D` is the `.exec` arrangement of this model (one
+  dict for every module-level and global operation, then builtins). The FULL statement would be
+
+      theorem eval_agrees_with_plain_dict (fuel st e) (he : e has no `nsop`) (hst : no cell of st.heap
+          refers to namespace id st.next) :
+        (runEval false fuel st e).1 = (evalExpr .exec fuel sc e (st.enter .exec (plainNs st))).1
+          ∧ the heaps agree
+
+  (`nsop` must be excluded: `globals().pop('a')` on a context key is where the namespace object is
+  visibly not a dict — `ns_pop_of_context_key`.) It needs a nine-way simulation induction over the
+  evaluator with the invariant below threaded through every function and through the code of every
+  function / generator object the expression makes; NOT done. PROVED here is the core of that
+  induction — every primitive by which the evaluator touches a namespace preserves the simulation
+  relation `Flat` and yields the same value under it — and that the relation holds at the start. The
+  whole-expression agreement is covered by the harness (monitor M3 on every generated `!py`
+  expression). -/
+
+/-- The one dict plain Python would use: own entry `__builtins__`, then the context's bindings, then
+    the imports (as an association list: the first match wins — `{**imports, **context, **own}`). -/
+def plainNs (st : St) : Env := ownInit ++ st.ctx ++ st.imps
+
+/-- The simulation relation: the two states agree on everything but the namespace objects, and the
+    plain side's current dict answers every lookup like the three layers of the `!py` side do. -/
+def Flat (se sx : St) : Prop :=
+  se.heap = sx.heap ∧ se.bi = sx.bi ∧
+  ∀ x, sx.own.get? x = orElse (se.own.get? x) (orElse (se.ctx.get? x) (se.imps.get? x))
+
+/-- `eval_agrees_with_plain_dict_partial` (1/3): the relation holds when the evaluation starts. -/
+theorem plain_dict_initial (st : St) :
+    Flat (st.enter .evalFixed ownInit) (st.enter .exec (plainNs st)) := by
+  refine ⟨rfl, rfl, ?_⟩
+  intro x
+  simp only [St.own_enter, St.enter_ctx, St.enter_imps, plainNs, Env.get?_append, orElse_assoc]
+
+/-- `eval_agrees_with_plain_dict_partial` (2/3): under the relation EVERY name read — any scope, any
+    frame chain, locals / cells / `global` declarations / module level / function level — gives the
+    same answer on both sides. (Class bodies exist only in py blocks.) -/
+theorem plain_dict_load (se sx : St) (sc : Scope) (x : String) (h : Flat se sx)
+    (hkind : ∀ r, sc.kind ≠ .cls r) :
+    load .evalFixed sc se x = load .exec sc sx x := by
+  obtain ⟨hh, hb, hf⟩ := h
+  have hg : loadGlobal .evalFixed se x = loadGlobal .exec sx x := by
+    rw [loadGlobal_evalFixed]
+    simp only [loadGlobal, globalsGetItem, hf x, hb, orElse_assoc]
+  have hn : loadName .evalFixed se x = loadName .exec sx x := by
+    rw [loadName_evalFixed, hg]
+    simp only [loadName, loadGlobal, localsGetItem, globalsGetItem, globalsRaw]
+    cases sx.own.get? x <;> rfl
+  unfold load
+  rw [hh]
+  split
+  · rfl
+  · rfl
+  · rw [hg]
+  · cases hk : sc.kind with
+    | module => simp only [hg, hn]
+    | func => simp only [hg]
+    | cls r => exact absurd hk (hkind r)
+
+/-- `eval_agrees_with_plain_dict_partial` (3/3): under the relation EVERY binding operation of an
+    expression (`:=` at any nesting: into a function's frame, into the namespace) keeps the
+    relation. -/
+theorem plain_dict_store (se sx : St) (sc : Scope) (x : String) (v : V) (h : Flat se sx)
+    (hkind : ∀ r, sc.kind ≠ .cls r) :
+    Flat (store .evalFixed sc se x v) (store .exec sc sx x v) := by
+  obtain ⟨hh, hb, hf⟩ := h
+  have own_step : Flat (se.setOwn (se.own.set x v)) (sx.setOwn (sx.own.set x v)) := by
+    refine ⟨hh, hb, ?_⟩
+    intro y
+    simp only [St.own_setOwn, St.setOwn_ctx, St.setOwn_imps, Env.get?_set, hf y]
+    split <;> rfl
+  unfold PyNs.store
+  rw [hh]
+  split
+  · rename_i r _
+    refine ⟨?_, ?_, ?_⟩
+    · simp only [St.frameSet, hh]; split <;> simp [St.heapSet, hh]
+    · have e5 : (se.frameSet r x v).bi = se.bi := by simp only [St.frameSet]; split <;> rfl
+      have e6 : (sx.frameSet r x v).bi = sx.bi := by simp only [St.frameSet]; split <;> rfl
+      rw [e5, e6]; exact hb
+    · intro y
+      have e1 : (se.frameSet r x v).own = se.own := by simp only [St.frameSet]; split <;> rfl
+      have e2 : (sx.frameSet r x v).own = sx.own := by simp only [St.frameSet]; split <;> rfl
+      have e3 : (se.frameSet r x v).ctx = se.ctx := by simp only [St.frameSet]; split <;> rfl
+      have e4 : (se.frameSet r x v).imps = se.imps := by simp only [St.frameSet]; split <;> rfl
+      rw [e1, e2, e3, e4]; exact hf y
+  · exact own_step
+  · cases hk : sc.kind with
+    | module => simp only []; split <;> exact own_step
+    | func => exact own_step
+    | cls r => exact absurd hk (hkind r)
+
+/-- the three lemmas on the example world: `(x := a)` then a read of `x`, `a`, `math`, `abs` in a
+    function scope gives the same four answers with one plain dict -/
+example :
+    let sc : Scope := { kind := .func, chain := [], explicit := [] }
+    let se := store .evalFixed sc (exSt.enter .evalFixed ownInit) "x" (.cst 3)
+    let sx := store .exec sc (exSt.enter .exec (plainNs exSt)) "x" (.cst 3)
+    (["x", "a", "math", "abs", "nope"].map (load .evalFixed sc se)) =
+      (["x", "a", "math", "abs", "nope"].map (load .exec sc sx)) ∧
+    load .evalFixed sc se "a" = .ok (.tok .ctx "a") := by decide +kernel
 
 end Pypyr.C14
